@@ -18,7 +18,7 @@ CLAIMED = {
  "C05": ("proof", "UF-leaf value lemmas (K2) on the real bodies of 21 aggregates / unit variants / differential cross sections, bit-exact by congruence (cvc5)",
          "totals, barn twins, Rayleigh/Compton differential identities at the momentum transfer of (E, theta); undefined part => 0 + one error",
          "CSb_Photo_Total (31-term occupancy sum) is attempted in the thorough tier only (no back end finishes); bit-exact in the library's operation order"),
- "C06": ("proof", "K5 value lemmas on the 21 macro-generated _CP functions and 3 refractive-index entry points with the parser/NIST lookup replaced by assumed contracts (ghost composition)",
+ "C06": ("other", "K5 value lemmas on the 21 macro-generated _CP functions and 3 refractive-index entry points with the parser/NIST lookup replaced by assumed contracts (ghost composition)",
          "mixture rule, resolution order, density fall-back, failing element fails the call, temporaries released on every exit",
          "bounded: compositions of <= 3 (quick) / 5 (thorough) elements - labelled bounded, not proof; parser/NIST contracts assumed here"),
  "C08": ("proof", "88 UF-leaf value lemmas in three layers whose right-hand sides are generated from the macro names (Auger sums, Coster-Kronig macros, line macros)",
